@@ -10,9 +10,10 @@ for d in sorted((V / "seeded").iterdir()):
         continue
     j = json.loads(m.read_text())
     det = j.get("detected_by", {})
-    by = ", ".join(f"{k} ({v['violations']} VIOLATION lines)" for k, v in det.items() if v["exit"] != 0) or "— (missed)"
+    by = ", ".join(f"{k} ({v['violations']} VIOLATION lines)" for k, v in det.items() if v["exit"] != 0) or ("— (missed; see meta.json first_run)" if j.get("first_run") else "— (missed)")
     rows.append(f"| {d.name} | {j.get('property')} | {j.get('breaks','')} | {j.get('needs_to_manifest','')} | {by} |")
 (V / "seeded" / "INDEX.md").write_text("# Seeded changes (from independent sub-agents) and which checks catch them\n\n"
     "Each directory holds patch.diff, demo.c, README.txt (the sub-agent's account), confirm.json (my confirmation in a scratch "
-    "worktree: 33/33 tests with the patch, demo fails with / passes without) and meta.json.\n\n"
+    "worktree: 33/33 tests with the patch, demo fails with / passes without) and meta.json (`first_run` records a miss of the "
+    "first run against the checks as they stood and what was strengthened).\n\n"
     "| seed | property | what breaks | needs to manifest | caught by (quick tier) |\n|---|---|---|---|---|\n" + "\n".join(rows) + "\n")
